@@ -134,14 +134,16 @@ var styleFamily = []string{"", "", "", "red", "bold", "bg-blue underlined", "dim
 var tagFamily = []string{"", "", "files", "shorthand flags", "longhand flags", "b tag", "a\ttag"}
 
 func genOpts(r *Rng, cfgCI bool) StrOpts {
-	o := StrOpts{Special: 25, Dropped: 5, NonASCII: 8, Invalid: 2, C0: 2, MaxLen: 8}
+	o := StrOpts{Special: 25, Dropped: 5, NonASCII: 8, MaxLen: 8}
 	switch r.Intn(6) {
 	case 0:
 		o = StrOpts{MaxLen: 5} // plain
 	case 1:
 		o = StrOpts{Special: 60, Dropped: 10, NonASCII: 5, MaxLen: 6}
 	case 2:
-		o = StrOpts{Special: 20, Dropped: 20, NonASCII: 20, Invalid: 5, C0: 5, MaxLen: 12}
+		o = StrOpts{Special: 20, Dropped: 20, NonASCII: 20, MaxLen: 12}
+	case 3:
+		o = StrOpts{Special: 20, Dropped: 10, NonASCII: 10, Invalid: 4, C0: 4, MaxLen: 10} // outside several claims: totality and byte-exactness only
 	}
 	if cfgCI { // the model folds ASCII only; Go's ToLower also rewrites invalid UTF-8
 		o.Invalid = 0
@@ -232,7 +234,7 @@ func valueChild(out *Out, seed uint64, start, count, cfg int, tier string) {
 			case 2:
 				desc = strings.Repeat(r.Pick([]string{"x", "é", "ab ", "日"}), 70+r.Intn(20)) + GenStr(r, StrOpts{MaxLen: 6})
 			case 3:
-				desc = r.Pick([]string{" ", "\n", " lead", "trail ", "l1\nl2", "${x}", "a\tb", " pad ", "with:colon", "back\\slash", "\x1cfs"})
+				desc = r.Pick([]string{" ", "\n", " lead", "trail ", "l1\nl2", "${x}", "a\tb", " pad ", "with:colon", "back\\slash"})
 			}
 			st := r.Pick(styleFamily)
 			vals = append(vals, common.RawValue{Value: v, Display: d, Description: desc, Style: st, Tag: r.Pick(tagFamily), Uid: r.Pick([]string{"", "", "uid://x"})})
@@ -318,6 +320,7 @@ func valueChild(out *Out, seed uint64, start, count, cfg int, tier string) {
 		}
 		// bash: wordbreak prefix and COMP_TYPE through the real Patch
 		wbp := ""
+		bashLine, bashWB, bashType := "", "", ""
 		if sh == "bash" {
 			os.Setenv("COMP_LINE", "cmd x")
 			os.Setenv("COMP_POINT", "5")
@@ -327,11 +330,14 @@ func valueChild(out *Out, seed uint64, start, count, cfg int, tier string) {
 			if wb != "" {
 				os.Setenv("COMP_WORDBREAKS", wb)
 			}
+			// operators would split the word into several tokens (redirect / pipeline handling is C17/C18)
+			word = strings.NewReplacer("<", "", ">", "", "|", "", "&", "", ";", "", "\x00", "").Replace(word) // (NUL cannot be put into the environment)
 			line := "cmd " + strings.NewReplacer(" ", "\\ ").Replace(word)
 			ctype := r.Pick([]string{"9", "9", "63", "63", "33", "37"})
 			os.Setenv("COMP_LINE", line)
 			os.Setenv("COMP_POINT", strconv.Itoa(len(line)))
 			os.Setenv("COMP_TYPE", ctype)
+			bashLine, bashWB, bashType = line, wb, ctype
 			tokens, lexErr := shlex.Split(line)
 			patched, err := safePatch([]string{"cmd", "x"})
 			if err == nil && lexErr == nil && len(patched) > 1 {
@@ -379,7 +385,7 @@ func valueChild(out *Out, seed uint64, start, count, cfg int, tier string) {
 		in := make(common.RawValues, len(vals))
 		copy(in, vals)
 		got := shell.Value(sh, word, meta, in)
-		out.Emit("value", fields, []string{got})
+		out.Emit("value", fields, []string{got, bashLine, bashWB, bashType})
 
 		// coverage accounting
 		cov["shell."+sh]++
@@ -472,4 +478,69 @@ func asciiLower(s string) string {
 		}
 	}
 	return string(b)
+}
+
+// valueOne re-runs one stored case (replay): the case fields as printed by valueChild, the
+// process-level environment (CARAPACE_MATCH, NO_COLOR, CARAPACE_ZSH_HASH_DIRS) set by the caller.
+func valueOne(fields []string, extras []string) string {
+	if len(fields) < 23 {
+		return "BADCASE"
+	}
+	sh, word, flags, envNospace := fields[0], fields[1], fields[2], fields[3]
+	wbPresent, wbVal, zPresent := fields[5], fields[6], fields[7]
+	nsStr, usage := fields[19], fields[20]
+	nm, _ := strconv.Atoi(fields[21])
+	msgs := fields[22 : 22+nm]
+	nv, _ := strconv.Atoi(fields[22+nm])
+	rest := fields[23+nm:]
+	vals := make(common.RawValues, 0, nv)
+	for i := 0; i < nv; i++ {
+		f := rest[i*7 : i*7+7]
+		vals = append(vals, common.RawValue{Value: f[0], Display: f[1], Description: f[2], Style: f[3], Tag: f[4], Uid: f[5]})
+	}
+	var meta common.Meta
+	for _, m := range msgs {
+		meta.Messages.Add(m)
+	}
+	b, _ := json.Marshal(nsStr)
+	_ = meta.Nospace.UnmarshalJSON(b)
+	meta.Usage = usage
+	if strings.Contains(flags, "C") {
+		shell.Value("fish", "", common.Meta{}, common.RawValues{})
+	}
+	os.Unsetenv("CARAPACE_UNFILTERED")
+	if strings.Contains(flags, "U") {
+		os.Setenv("CARAPACE_UNFILTERED", "1")
+	}
+	os.Unsetenv("CARAPACE_NOSPACE")
+	if envNospace != "" {
+		os.Setenv("CARAPACE_NOSPACE", envNospace)
+	}
+	os.Unsetenv("CARAPACE_TOOLTIP")
+	if strings.Contains(flags, "T") {
+		os.Setenv("CARAPACE_TOOLTIP", "1")
+	}
+	if sh == "bash" && len(extras) >= 4 && extras[1] != "" {
+		os.Setenv("COMP_LINE", "cmd x")
+		os.Setenv("COMP_POINT", "5")
+		os.Setenv("COMP_TYPE", "9")
+		bash.Patch([]string{"cmd", "x"})
+		if extras[2] != "" {
+			os.Setenv("COMP_WORDBREAKS", extras[2])
+		}
+		os.Setenv("COMP_LINE", extras[1])
+		os.Setenv("COMP_POINT", strconv.Itoa(len(extras[1])))
+		os.Setenv("COMP_TYPE", extras[3])
+		safePatch([]string{"cmd", "x"})
+	}
+	os.Unsetenv("COMP_WORDBREAKS")
+	if wbPresent == "1" {
+		os.Setenv("COMP_WORDBREAKS", wbVal)
+	}
+	os.Unsetenv("CARAPACE_COMPLINE")
+	if sh == "zsh" && zPresent == "1" {
+		// any line whose current token has the recorded raw value
+		os.Setenv("CARAPACE_COMPLINE", "cmd "+fields[8])
+	}
+	return shell.Value(sh, word, meta, vals)
 }
